@@ -178,6 +178,9 @@ pub mod weak;
 #[cfg(feature = "cleaners")]
 pub mod cleaners;
 
+#[cfg(feature = "verif")]
+pub mod verif;
+
 #[cfg(feature = "derive")]
 pub use derives::{Finalize, Trace};
 
